@@ -101,7 +101,7 @@ void BusModel::advance(long ms, Out& out) {
     if (now_ms - pending[i].t_added_ms >= reply_timeout_ms) {
       const PendingReply p = pending[i];
       pending.erase(pending.begin() + i);
-      if (conns[p.caller].alive) { Exp e = exp_error(conns[p.caller].unique, p.serial, "org.freedesktop.DBus.Error.NoReply"); out[p.caller].push_back(e); }
+      if (conns[p.caller].alive) { Exp e = exp_error(conns[p.caller].unique, p.serial, "org.freedesktop.DBus.Error.NoReply"); emit_to(p.caller, e, out); }
     } else i++;
   }
 }
@@ -119,7 +119,7 @@ void BusModel::route(int c, const Msg& m, Out& out) {
     // undeliverable.  [property C05] a method call earns exactly one error carrying its serial; [U] for other types / NO_REPLY_EXPECTED
     Exp e = exp_error(conns[c].unique, m.serial, ""); e.any_errname = true;
     if (m.type != T_CALL || (m.flags & 1)) e.optional = true;
-    out[c].push_back(e);
+    emit_to(c, e, out);
     // [U] whether eavesdroppers see an undeliverable message
     for (int r : rule_recipients(st, c, -1)) { Exp x = exp_forward(st); x.optional = true; out[r].push_back(x); }
     return;
@@ -134,7 +134,7 @@ void BusModel::route(int c, const Msg& m, Out& out) {
     else if (replies_must_be_requested) {
       // [property C09] refused as access denied, delivered to nobody
       Exp e = exp_error(conns[c].unique, m.serial, "org.freedesktop.DBus.Error.AccessDenied"); e.optional = (m.flags & 1) != 0;
-      out[c].push_back(e);
+      emit_to(c, e, out);
       return;
     }
   }
@@ -142,9 +142,9 @@ void BusModel::route(int c, const Msg& m, Out& out) {
     // [M] a call that expects a reply opens a slot at its addressed recipient
     for (auto& p : pending) if (p.caller == c && p.callee == addressed && p.serial == m.serial) {
       // [D bus_connections_expect_reply] a second call with an outstanding (caller, callee, serial) is refused
-      Exp e = exp_error(conns[c].unique, m.serial, ""); e.any_errname = true; out[c].push_back(e); return;
+      Exp e = exp_error(conns[c].unique, m.serial, ""); e.any_errname = true; emit_to(c, e, out); return;
     }
-    if (pending_of(c) >= max_replies) { out[c].push_back(exp_error(conns[c].unique, m.serial, "org.freedesktop.DBus.Error.LimitsExceeded")); return; }
+    if (pending_of(c) >= max_replies) { emit_to(c, exp_error(conns[c].unique, m.serial, "org.freedesktop.DBus.Error.LimitsExceeded"), out); return; }
     pending.push_back({c, addressed, m.serial, now_ms});
   }
   out[addressed].push_back(exp_forward(st));
@@ -180,6 +180,7 @@ void BusModel::bus_signal(const std::string& member, const std::string& dest, co
   if (!dest.empty()) m.set_str(F_DESTINATION, 's', dest);
   m.body = body;
   int addressed = dest.empty() ? -1 : conn_by_unique(dest);
+  emitted.push_back(exp_bus_signal(member, dest, body));
   if (addressed >= 0) out[addressed].push_back(exp_bus_signal(member, dest, body));
   // broadcast: required.  Unicast signal from the bus (NameAcquired/NameLost): eavesdroppers' copies are optional [U]
   for (int r : rule_recipients(m, -1, addressed)) { Exp x = exp_bus_signal(member, dest, body); x.optional = !dest.empty(); out[r].push_back(x); }
@@ -194,7 +195,7 @@ void BusModel::hello(int c, const std::string& unique, uint32_t serial, Out& out
   conns[c].registered = true;
   conns[c].unique = unique;
   noc(unique, "", unique, out);
-  out[c].push_back(exp_reply(unique, serial, {S(unique)}));
+  emit_to(c, exp_reply(unique, serial, {S(unique)}), out);
   bus_signal("NameAcquired", unique, {S(unique)}, out);
 }
 
@@ -206,7 +207,7 @@ int BusModel::names_held(int c) const {
 
 uint32_t BusModel::request_name(int c, const std::string& name, uint32_t flags, uint32_t serial, Out& out, std::string* err) {
   const std::string& me = conns[c].unique;
-  auto fail = [&](const char* e) { *err = e; out[c].push_back(exp_error(me, serial, e)); return 0u; };
+  auto fail = [&](const char* e) { *err = e; emit_to(c, exp_error(me, serial, e), out); return 0u; };
   if (!is_bus_name(name)) return fail("org.freedesktop.DBus.Error.InvalidArgs");                       // [S]
   if (name[0] == ':' || name == BUS_NAME) return fail("org.freedesktop.DBus.Error.InvalidArgs");       // [S] cannot be requested
   if (names_held(c) >= max_names) return fail("org.freedesktop.DBus.Error.LimitsExceeded");            // [M]
@@ -238,13 +239,13 @@ uint32_t BusModel::request_name(int c, const std::string& name, uint32_t flags, 
     else { Q.push_back({c, A, D}); code = RN_IN_QUEUE; }                                                  // [S bullet 4] appended
   }
   if (Q.empty()) q.erase(name);
-  out[c].push_back(exp_reply(me, serial, {Value::basic('u', code)}));
+  emit_to(c, exp_reply(me, serial, {Value::basic('u', code)}), out);
   return code;
 }
 
 uint32_t BusModel::release_name(int c, const std::string& name, uint32_t serial, Out& out, std::string* err) {
   const std::string& me = conns[c].unique;
-  auto fail = [&](const char* e) { *err = e; out[c].push_back(exp_error(me, serial, e)); return 0u; };
+  auto fail = [&](const char* e) { *err = e; emit_to(c, exp_error(me, serial, e), out); return 0u; };
   if (!is_bus_name(name)) return fail("org.freedesktop.DBus.Error.InvalidArgs");
   if (name[0] == ':' || name == BUS_NAME) return fail("org.freedesktop.DBus.Error.InvalidArgs");        // [S] cannot be released
   uint32_t code;
@@ -257,7 +258,7 @@ uint32_t BusModel::release_name(int c, const std::string& name, uint32_t serial,
     if (idx == Q.size()) code = RL_NOT_OWNER;
     else { remove_owner_entry(name, c, out, true); code = RL_RELEASED; }
   }
-  out[c].push_back(exp_reply(me, serial, {Value::basic('u', code)}));
+  emit_to(c, exp_reply(me, serial, {Value::basic('u', code)}), out);
   return code;
 }
 
@@ -283,13 +284,14 @@ void BusModel::disconnect(int c, Out& out) {
     if (pending[i].callee == c || pending[i].caller == c) {
       const PendingReply p = pending[i];
       pending.erase(pending.begin() + i);
-      if (p.callee == c && p.caller != c && conns[p.caller].alive) out[p.caller].push_back(exp_error(conns[p.caller].unique, p.serial, "org.freedesktop.DBus.Error.NoReply"));
+      if (p.callee == c && p.caller != c && conns[p.caller].alive) emit_to(p.caller, exp_error(conns[p.caller].unique, p.serial, "org.freedesktop.DBus.Error.NoReply"), out);
     } else i++;
   }
   if (conns[c].registered) {
     std::vector<std::string> names;
     for (auto& kv : q) for (auto& o : kv.second) if (o.conn == c) names.push_back(kv.first);
-    for (auto& n : names) remove_owner_entry(n, c, out, false);
+    for (auto& n : names) { bool prim = !q[n].empty() && q[n][0].conn == c; if (prim) emitted.push_back(exp_bus_signal("NameLost", conns[c].unique, {S(n)})); remove_owner_entry(n, c, out, false); }   // NameLost is still produced (monitors see it) though the addressee is gone
+    emitted.push_back(exp_bus_signal("NameLost", conns[c].unique, {S(conns[c].unique)}));
     noc(conns[c].unique, conns[c].unique, "", out);   // [D] unique name released last
     // [D bus_matchmaker_disconnected] rules of other connections that name the departed unique name as sender or
     // destination can never match again (unique names are not reused); the bus drops them.
@@ -298,6 +300,16 @@ void BusModel::disconnect(int c, Out& out) {
   conns[c].rules.clear();
   conns[c].registered = false;
   out.erase(c);
+}
+
+void BusModel::become_monitor(int c, Out& out) {
+  std::vector<std::string> lost;
+  for (auto& kv : q) if (!kv.second.empty() && kv.second[0].conn == c) lost.push_back(kv.first);
+  std::string me = conns[c].unique;
+  bool was_reg = conns[c].registered;
+  disconnect(c, out);
+  (void)lost; (void)was_reg;
+  conns[c].alive = true; conns[c].monitor = true; conns[c].unique = me;
 }
 
 int BusModel::conn_by_unique(const std::string& u) const {
